@@ -7,8 +7,8 @@ from common import case_rng
 from framework import Finding
 
 MON = {"C01": solvermon.mon_c01, "C02": solvermon.mon_c02, "C03": solvermon.mon_c03, "C05": solvermon.mon_c05}
-CORR = {"C01": ("de", "nm", "pw", "solve"), "C02": ("de", "nm", "pw"), "C03": ("de", "nm", "pw"), "C04": ("ctl", "de", "nm", "pw", "solve"), "C05": ("ctl", "solve")}
-REQ = {"de": solvermodel.de_request, "nm": solvermodel.nm_request, "ctl": solvermodel.ctl_request, "pw": solvermodel.pw_request, "solve": solvermodel.solve_request}
+CORR = {"C01": ("de", "nm", "pw", "pwb", "solve"), "C02": ("de", "nm", "pw", "pwb"), "C03": ("de", "nm", "pw", "pwb"), "C04": ("ctl", "de", "nm", "pw", "pwb", "solve"), "C05": ("ctl", "solve")}
+REQ = {"de": solvermodel.de_request, "nm": solvermodel.nm_request, "ctl": solvermodel.ctl_request, "pw": solvermodel.pw_request, "solve": solvermodel.solve_request, "pwb": solvermodel.pwb_request}
 
 
 def spec_view(spec):
@@ -337,7 +337,7 @@ def run_shard(pid, seed, shard, ncases, tier, extra):
                 tag = "ties-skipped" if r[1].get("ties") == "true" else r[1]["msg"]
                 hist["solve-stop:%s" % tag] = hist.get("solve-stop:%s" % tag, 0) + 1
                 hist["solve-iterations"] = hist.get("solve-iterations", 0) + int(r[1]["iters"])
-        if which == "pw":
+        if which in ("pw", "pwb"):
             its, ext = solvermodel.pw_stats(rep, case["spec"]["dim"])
             hist["pw-iterations"] = hist.get("pw-iterations", 0) + its
             hist["pw-extrapolation-searches"] = hist.get("pw-extrapolation-searches", 0) + ext
@@ -392,7 +392,7 @@ def main(pid, module, theorems, tier, seed, rule_extra, trusted_extra):
             "recorded. non-trivial = at least 3 iterations really ran (or a Solve with > 3 cost calls). " % (4 if tier == "quick" else 8)) + rule_extra
     tb = ["Lean 4.33 kernel; axioms per theorem under coverage.theorems (subset of propext, Classical.choice, Quot.sound)",
           "hand-written model S (Model/Solver.lean, Model/NelderMead.lean, Model/PowellS.lean) tied to /repo by the bit-exact replays counted under histogram model:de / model:nm / model:pw / model:ctl",
-          "user functions are DSL terms evaluated identically by harness/dsl.py and Model/Dsl.lean; DE trial vectors are taken from the real strategy (recorded), Powell line searches from the real Brent (recorded)",
+          "user functions are DSL terms evaluated identically by harness/dsl.py and Model/Dsl.lean; DE trial vectors are taken from the real strategy (recorded); Powell is replayed twice: with the line searches of the real Brent as recorded oracle (model:pw) and from the initial guess alone with the Lean model of bracket/brent (Model/Brent.lean, model:pwb)",
           ] + trusted_extra
     assumptions = ["cost/penalty never return NaN (NaN traces are skipped and counted)", "constraints deterministic, idempotent and compatible with the box (generated so)",
                    "IEEE binary64 + - * / and comparisons agree between Lean Float and numpy/CPython"]
